@@ -1,9 +1,21 @@
 PROP = "C06"
-LEVEL = "exploration"
-CONTRACT_MODULES = ["rdp", "linear_fit"]
-DEDUCTIVE = []
-EXPLANATION = "bounded run-time layer only so far (the contracts of _rdp_fixed are not discharged yet)"
-LEVEL_TEXT = ("Bounded exploration: grdp, mp_grdp and min_point_rdp compared with the fixed-size sequence and its global costs (boundary thresholds included), checked against the "
-              "library's own primitives. Not a proof.")
-LEVEL_NOTE = "bounded; oracle uses the library's distance and ordering primitives on explicit index ranges"
-TECHNIQUE = "bounded run-time contract checking (stand-in; deductive contracts for _rdp_fixed pending)"
+LEVEL = "other"
+CONTRACT_MODULES = ["rdp", "linear_fit", "evaluation"]
+DEDUCTIVE = [
+    ("rdp", "kneeliverse.rdp._grdp", "thorough"),
+    ("rdp", "kneeliverse.rdp.grdp#n>2"),
+    ("rdp", "kneeliverse.rdp.grdp#n=2"),
+    ("rdp", "kneeliverse.rdp.mp_grdp#n>2"),
+    ("rdp", "kneeliverse.rdp.mp_grdp#n=2"),
+    ("rdp", "kneeliverse.rdp.min_point_rdp"),
+]
+EXPLANATION = ("Deductive part: _grdp keeps the refinement state invariant and passes a cache that is consistent with the curve to every "
+               "global-cost evaluation (the precondition under which C15 proves the value cache-independent); grdp / mp_grdp / min_point_rdp "
+               "return well-formed reductions and mp_grdp / min_point_rdp return at least min(m, n) points. The headline clause - the result "
+               "is the *first* member of the fixed-size sequence whose global cost is acceptable - needs the relational argument that _grdp "
+               "and _rdp_fixed perform the same refinement steps; that is covered by the bounded layer (sequence S_k from rdp_fixed, global "
+               "costs with fresh caches, boundary thresholds), not proved.")
+LEVEL_TEXT = ("Structural clauses proved (state invariant, cache consistency, minimum size); the 'first acceptable refinement' clause is a bounded "
+              "stand-in over curve families x metrics x distances x orderings x boundary thresholds x min_points.")
+LEVEL_NOTE = "headline clause bounded only; _grdp verified in the thorough tier only"
+TECHNIQUE = "contract-based deductive verification of the structural clauses; bounded run-time comparison with the fixed-size refinement sequence for the headline clause"
